@@ -1728,3 +1728,12 @@ package main
 //@   modifies W
 //@   ensures text: isType(writer, "*bytes.Buffer") ==> W[refOf(writer)] == old(W[refOf(writer)]) + itoa(cs.Seq) + " " + cs.Method
 //@   ensures only-this-writer: forall w int :: w != refOf(writer) ==> W[w] == old(W[w])
+
+// ---- pool buffers (C10): a buffer handed back to the pool must not be used (queued, read into) afterwards ----
+//@ func (*ByteArrayPool).Alloc
+//@   props C10
+//@   pool-result
+
+//@ func (*ByteArrayPool).Free
+//@   props C10
+//@   releases b
